@@ -75,6 +75,9 @@ MODES = {
     'BadStr': "class BadStr(Exception):\n    def __str__(self): raise RuntimeError('no')\nraise BadStr()",
     'BadRepr': "class BadRepr(Exception):\n    def __repr__(self): raise RuntimeError('no')\nraise BadRepr('x')",
     'NonStrStr': "class NonStrStr(Exception):\n    def __str__(self): return 5\nraise NonStrStr()",
+    # exception objects that are falsy (an error carrying an empty list of problems; one that defines __bool__)
+    'FalsyLen': "class Problems(Exception):\n    def __init__(self, items):\n        super().__init__(items)\n        self.items = items\n    def __len__(self):\n        return len(self.items)\nraise Problems([])",
+    'FalsyBool': "class Quiet(Exception):\n    def __bool__(self):\n        return False\nraise Quiet('q')",
     'Empty': "raise Exception()", 'NonStrArg': "raise Exception(5, [1])",
     'Chained': "try:\n    1/0\nexcept ZeroDivisionError as e:\n    raise ValueError('c') from e",
     'BareRaise': "raise", 'RaiseInt': "raise 5",
